@@ -955,4 +955,5 @@ func mergeContract(dst, src *Contract) {
 	}
 	dst.PureRefs = dst.PureRefs || src.PureRefs
 	dst.NoPanic = dst.NoPanic || src.NoPanic
+	dst.Finite = dst.Finite || src.Finite
 }
